@@ -32,6 +32,8 @@ type recordingBackend struct {
 	OnWS func(c *websocket.Conn, r *http.Request)
 	// OnHTTP, if set, answers plain requests (default: 200 with token echo).
 	OnHTTP func(rw http.ResponseWriter, r *http.Request)
+	// Pre, if set, may answer any request (including websocket handshakes) itself.
+	Pre func(rw http.ResponseWriter, r *http.Request) bool
 }
 
 func startRecordingBackend(w *World) *recordingBackend {
@@ -50,7 +52,11 @@ func startRecordingBackend(w *World) *recordingBackend {
 			isWS := websocket.IsWebSocketUpgrade(r)
 			rb.mu.Lock()
 			rb.Seen = append(rb.Seen, seenReq{Token: tok, Header: r.Header.Clone(), WS: isWS, Path: r.URL.RequestURI()})
+			pre := rb.Pre
 			rb.mu.Unlock()
+			if pre != nil && pre(rw, r) {
+				return
+			}
 			if isWS {
 				c, err := up.Upgrade(rw, r, nil)
 				if err != nil {
